@@ -892,6 +892,9 @@ func (fr *frame) assertType(st *State, v *Value, t types.Type) (*Value, *Term) {
 	}
 	switch t.Underlying().(type) {
 	case *types.Slice, *types.Struct:
+		if isValueBoxType(t) {
+			return unboxValue(t, v.S), ok
+		}
 		return st.loadObj("box<"+typeName(t)+">", t, v.S), ok
 	}
 	panic(unsupported("type assertion to " + typeName(t)))
@@ -962,7 +965,19 @@ func (fr *frame) coerce(st *State, v *Value, want types.Type) *Value {
 	if _, isIface := want.Underlying().(*types.Interface); isIface {
 		if v.K == VSlice || v.K == VStruct {
 			// composite values are boxed: the interface holds a reference to an immutable copy
-			box := st.newRef("box")
+			var box *Term
+			if leaves, ok := scalarLeaves(v); ok {
+				// a struct of scalar fields is comparable: its identity inside an interface is a function
+				// of its field values (Go compares such interface values field by field)
+				box = mkUF("mkbox<"+typeName(v.T)+">", SInt, leaves...)
+				st.assume(Gt(box, mkInt(0)))
+				ub := unboxValue(v.T, box)
+				for i, f := range ub.F {
+					st.assume(Eq(f.S, leaves[i]))
+				}
+				return &Value{K: VIface, T: want, Typ: typeTag(v.T), S: box}
+			}
+			box = st.newRef("box")
 			st.storeObj("box<"+typeName(v.T)+">", box, v)
 			return &Value{K: VIface, T: want, Typ: typeTag(v.T), S: box}
 		}
@@ -1018,4 +1033,44 @@ func goEq(a, b *Value) *Term {
 		return specEq(a, b)
 	}
 	return valueEq(a, b)
+}
+
+// scalarLeaves returns the field values of a struct whose fields are all scalars (in field order).
+func scalarLeaves(v *Value) ([]*Term, bool) {
+	if v.K != VStruct || isOpaqueStruct(v.T) || !isValueBoxType(v.T) {
+		return nil, false
+	}
+	var out []*Term
+	for _, f := range v.F {
+		if f.K != VScalar || f.S == nil || f.SpecKind != "" {
+			return nil, false
+		}
+		out = append(out, f.S)
+	}
+	return out, len(out) > 0
+}
+
+// isValueBoxType: struct types whose fields are all scalars are held in interfaces by value identity
+// (mkbox<T>(fields)); their fields are read back through selector functions, not through the heap.
+func isValueBoxType(t types.Type) bool {
+	st, ok := t.Underlying().(*types.Struct)
+	if !ok || isOpaqueStruct(t) || st.NumFields() == 0 {
+		return false
+	}
+	for i := 0; i < st.NumFields(); i++ {
+		if _, ok := scalarSort(st.Field(i).Type()); !ok {
+			return false
+		}
+	}
+	return true
+}
+
+func unboxValue(t types.Type, box *Term) *Value {
+	st := t.Underlying().(*types.Struct)
+	v := &Value{K: VStruct, T: t}
+	for i := 0; i < st.NumFields(); i++ {
+		srt, _ := scalarSort(st.Field(i).Type())
+		v.F = append(v.F, scalar(mkUF("sel<"+typeName(t)+">."+st.Field(i).Name(), srt, box), st.Field(i).Type()))
+	}
+	return v
 }
